@@ -34,9 +34,9 @@ TWIN_OF = {1: 0, 2: 0, 4: 3, 5: 3}
 TWIN_PROFILES = {
     # name: (generator parameters, objects per file, check deferral?)
     "basic": (dict(p_read=0.35, p_miss=0.15, p_ctx=0.22, p_cap=0.0), 1, True),
-    "joint": (dict(p_read=0.4, p_miss=0.15, p_ctx=0.22, p_cap=0.0, joint=True), 2, True),
+    "joint": (dict(p_read=0.4, p_miss=0.15, p_ctx=0.22, p_cap=0.0, joint=True, p_back=0.24), 2, True),
     "caps": (dict(p_read=0.3, p_miss=0.15, p_ctx=0.22, p_cap=0.7), 1, False),
-    "jointcaps": (dict(p_read=0.35, p_miss=0.15, p_ctx=0.22, p_cap=0.5, joint=True), 2, False),
+    "jointcaps": (dict(p_read=0.35, p_miss=0.15, p_ctx=0.22, p_cap=0.5, joint=True, p_back=0.24), 2, False),
     "readonly": (dict(p_read=0.9, p_miss=0.1, p_ctx=0.3, p_cap=0.3), 1, False),
 }
 
@@ -986,4 +986,75 @@ def unit_c06_handles(args):
         return dict(kind="oracle", fam=fam_index, seed=seed, profile="c06/handles", crash=traceback.format_exc())
     res["steps"] = n
     res["stats"] = {"scenarios": n}
+    return res
+
+
+# ------------------------------------------------------------------ C06: several buffered sessions over a tiny alphabet
+
+def gen_sessions(rng, is_dict, memory):
+    """Two objects on one file; two or three common buffered sessions (backend-wide or both objects'
+    own contexts, entered together) with unbuffered operations in between; every operation sets or
+    reads ONE position to a value from {1, 2}.  With so small an alphabet the content keeps
+    returning to bytes it had before (A-B-A) - inside a session, across sessions, through the
+    other object - which random programs over a large alphabet almost never do."""
+    ops = [("ext", 0, {"k": rng.choice([1, 2])} if is_dict else [rng.choice([1, 2])]),
+           ("open", is_dict, 0, MISSING), ("open", is_dict, 0, MISSING)]
+
+    def call():
+        o = "o%d" % rng.randrange(2)
+        if rng.random() < 0.3:
+            return ("call", o, "dgetitem", "k") if is_dict else ("call", o, "lgetitem", 0)
+        v = rng.choice([1, 2])
+        return ("call", o, "dsetitem", "k", v) if is_dict else ("call", o, "lsetitem", 0, v)
+
+    for _ in range(rng.choice([2, 2, 3])):
+        for _ in range(rng.randint(0, 2)):
+            ops.append(call())
+        if rng.random() < 0.5:
+            ops.append(("center", None))
+            close = [("cexit",)]
+        else:
+            first = rng.randrange(2)
+            ops += [("enter", first), ("enter", 1 - first)]
+            close = [("exit", 1 - first), ("exit", first)] if rng.random() < 0.5 else [("exit", first), ("exit", 1 - first)]
+        for _ in range(rng.randint(1, 4)):
+            ops.append(call())
+        ops += close
+    ops.append(call())
+    return ops
+
+
+def unit_c06_sessions(args):
+    fam_index, seed, n = args
+    ns = env.load()
+    fam = ns.families[fam_index]
+    res = dict(kind="oracle", fam=fam_index, seed=seed, profile="c06/sessions", steps=0, stats={}, violations=[])
+    rng = random.Random(seed * 6841 + fam_index)
+    steps = 0
+    try:
+        for i in range(n):
+            ops = gen_sessions(rng, rng.random() < 0.6, fam.buffered == "memory")
+            steps += len(ops)
+            viol, _, _ = run_twin(ns, fam, ops, seed, "joint")
+            bad = [v for v in viol if "C06" in v[0] or "C05" in v[0]]
+            if bad and not res["violations"]:
+                tags = set(bad[0][0])
+
+                def still(cand):
+                    v2, _, _ = run_twin(ns, fam, cand, seed, "joint")
+                    return bool(v2) and bool(set(v2[0][0]) & tags)
+                small = ops
+                try:
+                    small = drive.shrink(ops, still)
+                    v2, _, _ = run_twin(ns, fam, small, seed, "joint")
+                    bad = v2 or bad
+                except Exception:  # noqa: BLE001
+                    small = ops
+                res["violations"].append(dict(props=list(bad[0][0]), msg=bad[0][1], ops=small, fam=fam.short, kind="twin",
+                                              extra=dict(profile="joint", seed=seed)))
+    except Exception:  # noqa: BLE001
+        drive.reset_class_state(ns)
+        return dict(kind="oracle", fam=fam_index, seed=seed, profile="c06/sessions", crash=traceback.format_exc())
+    res["steps"] = steps
+    res["stats"] = {"programs": n}
     return res
